@@ -82,6 +82,7 @@ mutual
     | .list [.atom "shift", .atom op, a, b] => do some (.shift (← shop? op) (← expr? a) (← expr? b))
     | .list [.atom "call", f, as] => do some (.call (← f.nat?) (← args? as))
     | .list [.atom "conv", t, e] => do some (.conv (← ty? t) (← expr? e))
+    | .list [.atom "assert", t, e] => do some (.assert (← ty? t) (← expr? e))
     | .list [.atom "index", a, i] => do some (.index (← expr? a) (← expr? i))
     | _ => none
   partial def args? (s : Sexp) : Option Args :=
@@ -96,6 +97,7 @@ mutual
     | .list [.atom "decl", t, e] => do some (.decl (← ty? t) (← expr? e))
     | .list [.atom "declz", t] => do some (.declz (← ty? t))
     | .list [.atom "define", e] => do some (.define (← expr? e))
+    | .list [.atom "defineok", t, e] => do some (.defineOk (← ty? t) (← expr? e))
     | .list [.atom "assign", i, e] => do some (.assign (← i.nat?) (← expr? e))
     | .list [.atom "opassign", .atom op, i, e] =>
       (match binop? op, shop? op with
